@@ -47,6 +47,7 @@ def _cotenants(rng, nmax):
 
 class C05(Base):
     ID = "C05"
+    TECHNIQUE = ('deterministic simulation: seeded configurations executed on the reference machine inside worlds with co-tenants of the shared memo table; forward-step counter and helper values compared with the Griewank-Walther closed form (reference model validated by exact search); helper and n_advance sweeps')
     EXPECTED_PROBES = ('helper_sweep_entries',)
     FORK_PER_RUN = True
     SIZES = {"quick": (80, 48), "thorough": (600, 128)}
@@ -206,6 +207,7 @@ class C05(Base):
 
 class C06(Base):
     ID = "C06"
+    TECHNIQUE = ('deterministic simulation: paired RAM/DISK runs with the planner knob and co-tenants; forward-step counter compared with the reference recurrence (validated by exact search); planner-cost sweep')
     EXPECTED_PROBES = ('helper_sweep_entries', 'tabulated_planner_ran', 'mixed_deps_checkpoint')
     FORK_PER_RUN = True
     SIZES = {"quick": (60, 0), "thorough": (250, 0)}
@@ -318,6 +320,7 @@ class C06(Base):
 
 class C07(Base):
     ID = "C07"
+    TECHNIQUE = ('deterministic simulation: run-groups executed on the reference machine with a simulated cost clock; makespan compared with exact reference recurrences (validated by exact search) and group inequalities')
     EXPECTED_PROBES = ('hrevolve_used_disk', 'disk_checkpoint_reread')
     BATCH = 4
     SIZES = {"quick": (48, 48), "thorough": (128, 128)}
@@ -420,6 +423,7 @@ class C07(Base):
 
 class C13(Base):
     ID = "C13"
+    TECHNIQUE = ('deterministic simulation: seeded TwoLevel histories (on-time and late finalisation, 1-3 passes) on the reference machine; forward phase and per-block step counts compared with reference models')
     EXPECTED_PROBES = ('twolevel_partial_last_block', 'twolevel_two_binomial_checkpoints', 'second_pass_runs')
     SIZES = {"quick": (80, 0), "thorough": (400, 0)}
     WORLD_KW = {"keep_log": True}
@@ -567,6 +571,7 @@ def stack_positions(stream):
 
 class C14(Base):
     ID = "C14"
+    TECHNIQUE = ('deterministic simulation: sibling-configuration worlds (all RAM/DISK splits, both trajectories) on the reference machine; label-erased streams, stack positions and disk traffic compared')
     EXPECTED_PROBES = ('c14_allocation_matters',)
     BATCH = 8
     SIZES = {"quick": (48, 0), "thorough": (200, 0)}
@@ -666,6 +671,7 @@ class C14(Base):
 
 class C16(Base):
     ID = "C16"
+    TECHNIQUE = ('deterministic simulation with a configuration knob: paired runs on the memoised and the tabulated planner path in one fresh process; streams, machine summaries and table rows compared')
     EXPECTED_PROBES = ('tabulated_planner_ran', 'c16_table_rows')
     FORK_PER_RUN = True
     SIZES = {"quick": (60, 0), "thorough": (200, 0)}
@@ -759,6 +765,7 @@ class C16Driver:
 
 class C19(Base):
     ID = "C19"
+    TECHNIQUE = ('deterministic simulation: run-groups of PeriodicDiskRevolve over many N executed on the reference machine; disk write/read positions and per-segment step counts compared with the exact closed form and the Revolve optimum')
     EXPECTED_PROBES = ('c19_two_disk_checkpoints',)
     BATCH = 4
     SIZES = {"quick": (64, 64), "thorough": (160, 160)}
